@@ -183,14 +183,19 @@ fn step_pg(c: &mut PgCase, ws: &[&str]) -> String {
             // the page file is locked exclusively by its handle (C10 fix): release the old handle first
             c.pager = Pager::open(c.dir.path().join("scratch.ndb")).expect("scratch pager");
             match Pager::open(&path) {
-                Ok(mut p) => match catch_unwind(AssertUnwindSafe(|| IdMap::load(&mut p))) {
-                    Ok(Ok(m)) => {
-                        c.pager = p;
-                        c.idmap = m;
-                        format!("ok | {}", c.tail())
+                Ok(mut p) => {
+                    // the new handle replaces the old one whether or not the node table can be loaded
+                    // (a freed node-table page makes IdMap::load fail; the pager itself is fine)
+                    let r = catch_unwind(AssertUnwindSafe(|| IdMap::load(&mut p)));
+                    c.pager = p;
+                    match r {
+                        Ok(Ok(m)) => {
+                            c.idmap = m;
+                            format!("ok | {}", c.tail())
+                        }
+                        _ => "err".into(),
                     }
-                    _ => "err".into(),
-                },
+                }
                 Err(_) => "err".into(),
             }
         }
